@@ -47,8 +47,8 @@ impl Check for BusCheck {
             // "afterwards a well-behaved connection is still served correctly": every fourth
             // history is one of the well-behaved workloads with more peers that die in every way
             use crate::bus::gen::Op;
-            let fs: [fn() -> Profile; 5] = [profiles::calls, profiles::registry, profiles::events, profiles::channels, profiles::listeners];
-            profile = fs[((idx / 4) % 5) as usize]();
+            let fs: [fn() -> Profile; 6] = [profiles::calls, profiles::registry, profiles::events, profiles::channels, profiles::listeners, profiles::introspection];
+            profile = fs[((idx / 4) % 6) as usize]();
             for (op, w) in profile.weights.iter_mut() {
                 if matches!(op, Op::DisconnectDrop | Op::DisconnectMute | Op::DisconnectClose) {
                     *w *= 3;
